@@ -64,6 +64,18 @@ class QueueGen:
         out.append(["new_default"] + [f"enqueue {i}" for i in range(1, 20)] + ["poll"] * 5 +
                    ["it_new", "it_next", "it_replace 9", "foreach", "destroy_cb", "destroy"])
         out.append(["new cap=2", "enqueue 1", "enqueue 2", "it_new", "it_replace 5", "zit_next", "destroy_cb"])
+        # the SAME queue on both sides of the zip iterator: capacities 1..4, exactly 0 or 1 free slots
+        for cc in (1, 2, 3, 4):
+            cap = upper_pow_two(cc)
+            for f in range(cap):
+                for s in sorted({cap, cap - 1}):
+                    pre = [f"new cap={cc}"] + [f"enqueue {20 + i}" for i in range(s)]
+                    for i in range(f):
+                        pre += ([f"enqueue {40 + i}", "poll"] if s < cap else ["poll", f"enqueue {40 + i}"]) if s else []
+                    out.append(pre + ["zit_new o=0 o2=0"] + ["zit_next"] * (s + 2) + ["destroy"])
+                    for k in range(1, s + 1):
+                        out.append(pre + ["zit_new o=0 o2=0"] + ["zit_next"] * k + ["zit_replace 7 8"] +
+                                   ["zit_next"] * (s - k + 1) + ["enqueue 9", "poll", "destroy"])
         return out
 
     def fault_seeds(self, tier):
@@ -95,7 +107,7 @@ class QueueGen:
                 p_enq = rng.choice([0.2, 0.35, 0.5])
             allow_fail = focus == "all" and not default_obj   # the C library triple is never refused
             for _ in range(length):
-                r = rng.random() if focus != "growth" else max(rng.random(), 0.061)
+                r = rng.random() if focus != "growth" else (0.05 if rng.random() < 0.01 else max(rng.random(), 0.061))
                 q = sims[0]
                 if r < 0.04:
                     ops.append("it_new")
@@ -126,6 +138,8 @@ class QueueGen:
                                 sims[1].items.pop()
                             ops.append("poll o=1")
                     a, b = rng.choice([(0, 1), (1, 0)])
+                    if rng.random() < 0.25:
+                        b = a                     # the same queue on both sides
                     ops.append(f"zit_new o={a} o2={b}")
                     m = min(len(sims[a].items), len(sims[b].items))
                     for j in range(m + 1):
